@@ -5,7 +5,7 @@
    particular for [is_strictness_fulfilled s]; what that predicate means is the subject of
    [strictness_eval_sound].  [names_distinct]: the candidate set is a set (the table is indexed by model name). *)
 From Coq Require Import QArith ZArith List Bool PArith Arith Permutation Sorted.
-From PV Require Import C19.Model C19.Spec C19.Penalty C19.Summary C19.Proofs.
+From PV Require Import Base.PyData Base.Expr Base.Interp C19.Model C19.Spec C19.Penalty C19.Summary C19.Categorize C19.Proofs.
 Import ListNotations.
 Local Open Scope nat_scope.
 
@@ -276,3 +276,50 @@ Theorem last_of_step_is_last :
     last_of_step step l = Some v <->
     exists l1 l2, l = l1 ++ (step, v) :: l2 /\ forall x, In x l2 -> fst x <> step.
 Proof. intros. apply last_of_step_spec. Qed.
+
+(* ---- _categorize_parameters: the counts of the 'mixed' BIC (Categorize.v) *)
+
+(* the mixed BIC over the MODELLED counts: a candidate whose two counts are those of [categorize] on its statements
+   gets  -2LL + |random| log(n_individuals) + |fixed| log(n_observations) *)
+Theorem bic_mixed_over_categorize :
+  forall logf c m o,
+    c_nrandm c = cat_nrand m -> c_nfixm c = cat_nfix m ->
+    calculate_bic logf (Some BMixed) c o =
+    Ok (o + (natQ (length (normp (snd (categorize m)))) * logf (c_nsubs c)
+             + natQ (length (normp (fst (categorize m)))) * logf (c_nobs c)))%Q.
+Proof. exact bic_mixed_over_categorize_lemma. Qed.
+
+(* fixed and random parameters are disjoint sets of ESTIMATED (non-fixed) parameters, for every model *)
+Theorem categorize_partition :
+  forall m,
+    (forall x, In x (fst (categorize m)) -> ~ In x (snd (categorize m))) /\
+    (forall x, In x (fst (categorize m)) \/ In x (snd (categorize m)) -> In x (cm_nonfixed m)).
+Proof. exact categorize_inv. Qed.
+
+(* one classification step: when the expression contains an eta, all its estimated parameters (and sigmas) become
+   random and are withdrawn from the fixed ones; otherwise those that are not already random become fixed *)
+Theorem categorize_step_random :
+  forall etas symbols cur f r,
+    interp_nonempty symbols etas = true ->
+    forall x, In x cur -> In x (snd (cat_step etas symbols cur (f, r))) /\ ~ In x (fst (cat_step etas symbols cur (f, r))).
+Proof. exact cat_step_random. Qed.
+Theorem categorize_step_fixed :
+  forall etas symbols cur f r,
+    interp_nonempty symbols etas = false ->
+    snd (cat_step etas symbols cur (f, r)) = r /\
+    forall x, In x cur -> ~ In x r -> In x (fst (cat_step etas symbols cur (f, r))).
+Proof. exact cat_step_fixed. Qed.
+
+(* zero-fixed omegas: the etas of a distribution whose parameters are all fixed to 0 are the constant 0, so a term
+   they multiply vanishes (its thetas are not counted at all) and exp(eta) is 1 *)
+Theorem zero_fixed_eta_is_constant :
+  forall m d eta,
+    In d (cm_rvs m) -> is_zero_dist m d = true -> In eta (rd_names d) ->
+    alook (zero_syms m) [] eta = AConst (Some 0%Q).
+Proof. exact zero_eta_constant. Qed.
+Theorem zero_eta_term_vanishes :
+  forall look eta a,
+    look eta = AConst (Some 0%Q) ->
+    aeval look (Mul (Sym eta) a) = AConst (Some 0%Q) /\ aeval look (Mul a (Sym eta)) = AConst (Some 0%Q)
+    /\ aeval look (Fn1 F_EXP (Sym eta)) = AConst (Some 1%Q).
+Proof. exact zero_factor_vanishes. Qed.
